@@ -6,6 +6,8 @@ package main
 //   snapshot/upgrader.go Upgrade8To10          (C08)
 
 import (
+	"go/token"
+	"sort"
 	"fmt"
 	"go/ast"
 	"strings"
@@ -165,6 +167,77 @@ func init() {
 			}
 		}
 		x.DefStrings("reapExecuteSites", sites)
+		// the verification steps on the fresh path: order of the calls (first occurrence each),
+		// ensureVerified only in the else branch of the resume test, the guard of inputs.Check
+		var fresh []string
+		verifiesOnlyFresh := false
+		inputsGuard := ""
+		if fd := x.Func("snapshot", "Store", "reapInternal"); fd != nil {
+			type hit struct {
+				pos  token.Pos
+				name string
+			}
+			var hits []hit
+			seen := map[string]bool{}
+			ast.Inspect(fd.Body, func(n ast.Node) bool {
+				c, ok := n.(*ast.CallExpr)
+				if !ok {
+					return true
+				}
+				src := x.Src(c.Fun)
+				name := ""
+				switch {
+				case src == "s.ensureVerified":
+					name = "ensureVerified"
+				case src == "s.getSnapshots":
+					name = "getSnapshots"
+				case src == "inputs.Check":
+					name = "inputs.Check"
+				case src == "plan.WriteToFile":
+					name = "plan.WriteToFile"
+				case src == "s.executeReapPlan":
+					name = "executeReapPlan"
+				}
+				if name == "executeReapPlan" {
+					// the resume call precedes everything; the fresh path's is the last one
+					hits = append(hits, hit{c.Pos(), name})
+				} else if name != "" && !seen[name] {
+					seen[name] = true
+					hits = append(hits, hit{c.Pos(), name})
+				}
+				return true
+			})
+			sort.Slice(hits, func(i, j int) bool { return hits[i].pos < hits[j].pos })
+			for i, h := range hits {
+				if h.name == "executeReapPlan" && i == 0 {
+					continue // the resume branch
+				}
+				fresh = append(fresh, h.name)
+			}
+			for _, st := range fd.Body.List {
+				is, ok := st.(*ast.IfStmt)
+				if !ok || x.Src(is.Cond) != "fsutil.FileExists(s.reapPlanPath)" {
+					continue
+				}
+				inElse := is.Else != nil && len(x.Calls(is.Else, "ensureVerified")) > 0
+				inThen := len(x.Calls(is.Body, "ensureVerified")) > 0
+				verifiesOnlyFresh = inElse && !inThen && len(x.Calls(fd.Body, "ensureVerified")) == 1
+			}
+			ast.Inspect(fd.Body, func(n ast.Node) bool {
+				is, ok := n.(*ast.IfStmt)
+				if ok && inputsGuard == "" && len(x.Calls(is.Body, "Check")) > 0 {
+					for _, c := range x.Calls(is.Body, "Check") {
+						if x.Src(c.Fun) == "inputs.Check" {
+							inputsGuard = x.Src(is.Cond)
+						}
+					}
+				}
+				return true
+			})
+		}
+		x.DefStrings("reapFreshPathSteps", fresh)
+		x.DefBool("reapVerifiesOnlyWhenNotResuming", verifiesOnlyFresh)
+		x.DefString("reapInputsCheckGuard", inputsGuard)
 		x.Raw("def reapRemoveOnly : List (String × String) := " + leanPairs(removeOnly))
 		x.Raw("def reapConsolidate : List (String × String) := " + leanPairs(consolidate))
 		x.DefOptBool("reapWriteBeforeExecute", writeBeforeExec, found)
